@@ -648,9 +648,9 @@ class Provenance(MutableSequence[Expression]):
 
         result = np.equal(values[self._data[:, :, :, 0]], self._data[:, :, :, 1])
         result = result.squeeze(axis=2) if result.shape[2] == 1 else np.all(result, axis=2)
-        result = result.squeeze(axis=1) if result.shape[1] == 1 else np.any(result, axis=1)  # TODO: This is incorrect.
-        # Specifically, when some elements of data are -1 then some equalities would be (-1 == -1) which are true
-        # and this is fine for all() because True is a netural element. But in any() this situation causes problems.
+        # Disjuncts made up entirely of padding must not count as satisfied.
+        result = result & ~np.all(self._data[:, :, :, 0] == -1, axis=2)
+        result = result.squeeze(axis=1) if result.shape[1] == 1 else np.any(result, axis=1)
         if dtype == int:
             result = np.argwhere(result)
         return result
